@@ -20,12 +20,12 @@ LEVEL_TEXT = ('every reply string of the alphabet is fed to the real trash-resto
               'exit status must be non-zero; scoping is checked on all subsets of prefix-related locations')
 LEVEL_NOTE = 'trusted: R5 (reference grammar); tokens that only Python int() accepts (" 1", "+1") are don\'t-care; exit status of valid duplicate selections is don\'t-care'
 RULE = ('(a) replies: all strings of length 0..3 (thorough 0..4) over {0,1,2,3,9,-,",",space,+,a} plus {99999999999, 0-99999999999, 3-1, 1-2-3, '
-        'arabic-indic 3, 0,0, 1-2,2} x list length {1,4} x sort {date,path}; (b) subsets (<=3) of {/a/foo,/a/foobar,/a/foo/x,/a,/b/foo,/foo} x '
+        'arabic-indic 3, 0,0, 1-2,2} x list length {1,4} x sort {date,path}; (b) subsets (<=3) of {/a/foo,/a/foobar,/a/foo/x,/a,/b/foo,/foo,/a/foobar/y,/a/foo-bar/z/w} x '
         'scope {/a/foo,/a/fo,/a,/,/a/foo/,foo,.,..,none}; non-trivial = listing printed and reply read; distinct = (R5 class, list length, outcome) and '
         '(scope, subset size, outcome)')
 ALPHA = ['0', '1', '2', '3', '9', '-', ',', ' ', '+', 'a']
 EXTRA = ['99999999999', '0-99999999999', '3-1', '1-2-3', '٣', '0,0', '1-2,2', '0-3', '3,2,1,0', '0-0']
-LOCS = ['/a/foo', '/a/foobar', '/a/foo/x', '/a', '/b/foo', '/foo']
+LOCS = ['/a/foo', '/a/foobar', '/a/foo/x', '/a', '/b/foo', '/foo', '/a/foobar/y', '/a/foo-bar/z/w']
 SCOPES = ['/a/foo', '/a/fo', '/a', '/', '/a/foo/', 'foo', '.', '..', 'none']
 TD = scen.HOME_TRASH
 
@@ -38,7 +38,7 @@ def replies(tier):
 
 
 def dimensions(tier):
-    return {'replies': len(replies(tier)), 'list_length': 2, 'sort': 2, 'location_subsets': 41, 'scopes': len(SCOPES)}
+    return {'replies': len(replies(tier)), 'list_length': 2, 'sort': 2, 'location_subsets': 92, 'scopes': len(SCOPES)}
 
 
 def cases(tier):
